@@ -1298,3 +1298,17 @@ Example life_check_example :
   life_check (mk_life_case tr_w 10 99 7%Z [Add 20; Continue; Restart; Continue; Continue; Continue; Quit]
                 [0%Z] [(1, Glob 20)] 1) = 2.
 Proof. vm_compute. auto. Qed.
+
+(* the two halves together: an attached process at ANY prompt of the patch machine, after ANY
+   watchpoint / thread history (C14's commands), is released intact by detach and by drop *)
+Theorem attached_history_survives : forall code tr off s i m ops tds,
+  Prompt code tr s i m -> s_detached s = false -> tds <> [] -> Forall valid_op ops ->
+  let w := Wp.wrun ops (wst_attached tds) in
+  (exists x', detach_w off (mk_world s w) = Ok x' /\ Survives code w x' /\ s_detached (w_bp x') = true) /\
+  (s_external s = true -> exists x', drop_w off (mk_world s w) = Ok x' /\ Survives code w x').
+Proof.
+  intros code tr off s i m ops tds P Hd Hne V w. destruct (attached_wrun_ok ops tds Hne V) as [I A].
+  pose proof (prompt_stopped code tr s i m P) as S. split.
+  - now apply detach_external_survives.
+  - intro Hx. now apply drop_external_survives.
+Qed.
